@@ -446,6 +446,17 @@ def analyse(fb, spec):
                 break
         if not found:
             raise Broken("%s: data accessor does not use payloadData.data() + sizeof(Header)" % g.name)
+        # the value handed out: every non-null pointer the public data getter returns is data() + that offset, as a linear form
+        # (a sub-expression data() + sizeof(Header) inside a larger sum does not count)
+        if g.name.endswith("::getData"):
+            from .views import pointer_rows
+            for _, v, form in pointer_rows(fb, g):
+                if form is None:
+                    continue
+                bases = sorted(k2 for k2 in form if k2 != 1 and form[k2])
+                if bases == ["D"] and form["D"] == 1:
+                    out.append(Ob("size", cls, "%s:data-pointer" % cls, v.get("loc") or g.loc, form.get(1, 0) == off,
+                                  "getData() returns payload byte %d; the variable-length data starts at byte %d" % (form.get(1, 0), off)))
     # ---- swapEndian
     sw = [f for f in fb.by_name.get("ASAM::CMP::swapEndian", [])]
     if len(sw) < 5:
